@@ -206,7 +206,7 @@ def eval_match(case, obj=None, codes=None, inv=None):
     ok, text, oddity = normalise(code, digits)
     want = R.accept(text, ok, codes.__getitem__, t, window, skew, last, period)
     got = observe(obj, code, time_value(t, tform), window, skew, last)
-    pos = position(want, text, inv, t, window, skew, last, period)
+    pos = label if want[0] == R.MALFORMED else position(want, text, inv, t, window, skew, last, period)
     info = (want, pos, got)
     if oddity == "non_ascii_digits":
         # neither the statement nor the docs say whether digits of another script are 'malformed' or merely
@@ -474,7 +474,7 @@ def run(ctx):
         periods, windows, skews, T = (1, 2, 3, 5), (0, 1, 2, 3, 5, 7), tuple(range(-3, 4)), 30
     else:
         configs = [(20, "sha1", 6), (10, "sha256", 8), (64, "sha512", 10)]
-        periods, windows, skews, T = (1, 2, 3, 5, 7, 30), (0, 1, 2, 3, 5, 7, 29, 30, 31, 60), tuple(range(-3, 4)) + (-30, 31), 64
+        periods, windows, skews, T = (1, 2, 3, 5, 7, 30), (0, 1, 2, 3, 5, 7, 30, 31), tuple(range(-3, 4)) + (-30, 31), 40
     tasks = []
     for fam in ("hmac", "mod3"):
         for n, alg, digits in configs if fam == "hmac" else configs[:2]:
@@ -484,7 +484,7 @@ def run(ctx):
                     for skew in skews:
                         for part in ("product", "forms"):
                             tasks.append({"part": part, "fam": fam, "key": key, "alg": alg, "digits": digits, "period": period,
-                                          "window": window, "skew": skew, "T": T})
+                                          "window": window, "skew": skew, "T": T if period < 30 else max(T, 100)})
     # heavy shards first (small periods have the most counters)
     tasks.sort(key=lambda t: (t["part"] != "product", t["period"]))
     # ---- E2 configurations: (period, window, skew, last time)
@@ -492,7 +492,7 @@ def run(ctx):
         hist = [(1, 1, 0, 7), (2, 2, 0, 15), (2, 3, -1, 14), (3, 2, 1, 22), (3, 0, 0, 26), (2, 5, 0, 11), (5, 7, -3, 40)]
     else:
         hist = [(1, 1, 0, 10), (1, 0, 0, 12), (2, 2, 0, 21), (2, 3, -1, 20), (3, 2, 1, 31), (3, 0, 0, 38), (2, 5, 0, 17),
-                (5, 7, -3, 55), (30, 30, 0, 330), (30, 45, -10, 320), (7, 3, 2, 80)]
+                (5, 7, -3, 55), (30, 30, 0, 330), (30, 45, -10, 320), (7, 3, 2, 72)]
     htasks = []
     for fam in ("hmac", "mod3"):
         for period, window, skew, tmax in hist:
